@@ -7,7 +7,7 @@ MCPositions  == {"param", "result", "both", "unnamed", "qualparam", "variadic", 
 MCOthers     == {"none", "parambefore", "paramafter", "twinparam", "methodbefore", "methodafter", "ifaceU", "ifaceT"}
 MCSrcKinds   == {"named", "alias"}
 MCTargets    == {"named", "alias", "samename", "dstpkg"}
-MCLevels     == {"root", "pkg", "iface", "entry", "entry2"}
+MCLevels     == {"root", "pkg", "iface", "entry", "entry2", "entry2x", "entry2y", "iface2x", "iface2y"}
 MCPlacements == {"separate", "inpkg"}
 MCTemplates  == {"testify", "matryer", "probe"}
 MCListings   == {"min", "I1", "all"}
